@@ -482,7 +482,7 @@ pub fn run(args: &Args) -> i32 {
       groups.push(Group { enums: vec![pe(3, 1, 3)], depth: 5, shapes: false, gen_consumer_only: false, crashes: 0, inject: false, max_roots: Some(1), faulty: false, slice: None, families: false, staged: None, direct: false, two_writers: false });
       groups.push(Group { enums: vec![rs(3, 1, 4)], depth: 4, shapes: false, gen_consumer_only: false, crashes: 0, inject: false, max_roots: Some(1), faulty: false, slice: None, families: false, staged: None, direct: false, two_writers: false });
       let mut e = EnumCfg::structural(2, 2, if quick { 2 } else { 3 });
-      e.ocs = vec![OC::Equals, OC::IsZero, OC::Always, OC::PieEquals, OC::Near];
+      e.ocs = vec![OC::Equals, OC::IsZero, OC::Always, OC::PieEquals, OC::Near, OC::UnitPred];
       e.read_rcs = vec![RC::Exact, RC::Exists, RC::Always];
       e.write_rcs = vec![RC::Exact, RC::Exists, RC::Always];
       e.write_decl = true;
